@@ -12,6 +12,10 @@ BOXES = [
     [-5.0, 5.0, -5.0, 5.0],
     [0.0, 1.0, -2.0, 2.0],
     [10.0, 12.0, -1.0, 0.0],
+    # output intervals whose ends are not representable: bottom + (top - bottom) * 1.0 may round to top + 1 ulp
+    [0.0, 1.0, 0.1, 0.7],
+    [0.0, 1.0, 1.1, 2.3],
+    [-0.7, 0.1, -1.0, 1.0],
 ]
 
 POINT_CLASSES = ["lo", "hi", "lo+ulp", "hi-ulp", "lo+1e-9", "hi-1e-9", "knot", "knot+ulp", "knot-ulp",
